@@ -56,7 +56,7 @@ struct Intervention {
 
 /// Run one path: send, optional configure, then service wake-ups with the given pattern vector
 /// (exact once the vector is exhausted) until nothing is outstanding.
-fn run_path(tcp: bool, cfg_idx: Option<u8>, pats: &[Pat], iv: Option<Intervention>, acc: &mut Acc) {
+fn run_path(prop: &'static str, sealed: bool, tcp: bool, cfg_idx: Option<u8>, pats: &[Pat], iv: Option<Intervention>, acc: &mut Acc) {
     let mut real = Real::new(tcp, base_instant());
     let mut spec = Spec::new(tcp);
     let mut steps: Vec<Step> = Vec::new();
@@ -64,7 +64,7 @@ fn run_path(tcp: bool, cfg_idx: Option<u8>, pats: &[Pat], iv: Option<Interventio
         let st = Step { act, now };
         acc.evaluations += 1;
         acc.validated += 1;
-        let br = lockstep(spec, real, &st, "C06");
+        let br = lockstep(spec, real, &st, prop);
         steps.push(st);
         if !br.is_empty() {
             for b in &br {
@@ -72,11 +72,20 @@ fn run_path(tcp: bool, cfg_idx: Option<u8>, pats: &[Pat], iv: Option<Interventio
                 v.replay["model"] = serde_json::json!("agent-schedule");
                 acc.violation(v);
             }
+            if prop == "C07" && br.iter().any(|b| b.property == "C06") {
+                if let Some(v) = super::model::drop_effect_check(tcp, steps) {
+                    acc.violation(v);
+                }
+            }
             return false;
         }
         true
     };
-    if !exec(&mut spec, &mut real, &mut steps, Act::Send { id: 0, dest: 0, seal: Seal::None, shape: 0 }, 0, acc) {
+    if sealed && !exec(&mut spec, &mut real, &mut steps, Act::SetRemote { key: 1 }, 0, acc) {
+        return;
+    }
+    let seal = if sealed { Seal::Sha1 } else { Seal::None };
+    if !exec(&mut spec, &mut real, &mut steps, Act::Send { id: 0, dest: 0, seal, shape: 0 }, 0, acc) {
         return;
     }
     if let Some(c) = cfg_idx {
@@ -100,6 +109,9 @@ fn run_path(tcp: bool, cfg_idx: Option<u8>, pats: &[Pat], iv: Option<Interventio
                 }
             }
         }
+        if spec.live.is_empty() {
+            break; // the intervention completed the transaction (response delivered)
+        }
         let wake = spec.wake().unwrap().max(spec.now);
         let pat = pats.get(wake_no).copied().unwrap_or(Pat::Exact);
         let interval = (wake - spec.now).max(0);
@@ -121,8 +133,15 @@ fn run_path(tcp: bool, cfg_idx: Option<u8>, pats: &[Pat], iv: Option<Interventio
         }
         wake_no += 1;
     }
+    // afterwards: the idle agent produces no event, a late response is dropped, the id is reusable
+    let now = spec.now + 1;
+    for act in [Act::Poll { when: When::Now, order: 0 }, Act::Resp { id: 0, class: 2, auth: Auth::None, from: 0 }, Act::Send { id: 0, dest: 0, seal: Seal::None, shape: 0 }] {
+        if !exec(&mut spec, &mut real, &mut steps, act, now, acc) {
+            return;
+        }
+    }
     acc.nontrivial += 1;
-    let how = spec.completed.get(&0).and_then(|v| v.last().copied());
+    let how = spec.completed.get(&0).and_then(|v| v.first().copied());
     acc.outcome(match how {
         Some(2) => "schedule ran to timeout",
         Some(3) => "schedule ended in cancellation",
@@ -145,19 +164,28 @@ pub fn sweep(ctx: &Ctx) -> Acc {
         jobs.push((false, Some(c as u8)));
         jobs.push((true, Some(c as u8)));
     }
-    let thorough = ctx.tier == Tier::Thorough;
     let acc1 = jobs
         .par_iter()
         .fold(Acc::default, |mut acc, (tcp, c)| {
             let (_, n, _) = c.map(cfg).unwrap_or((500, 6, 8000));
             let k = if *tcp { 1 } else { n as usize + 1 };
             for pv in pattern_vectors(k) {
-                run_path(*tcp, *c, &pv, None, &mut acc);
+                run_path("C06", false, *tcp, *c, &pv, None, &mut acc);
             }
             acc
         })
         .reduce(Acc::default, |a, b| a.merge(b));
     // interventions at every step index: reconfigure (named configs), cancel_retransmissions, cancel
+    let mut acts: Vec<Act> = (0..N_NAMED_CFGS as u8).map(|c| Act::Configure { id: 0, cfg: c }).collect();
+    acts.push(Act::CancelRtx { id: 0 });
+    acts.push(Act::Cancel { id: 0 });
+    acc1.merge(interventions(ctx, "C06", false, &acts))
+}
+
+/// Single-transaction paths to completion with one intervention at every step index, under two
+/// poll patterns and a family of base configurations, both transports.
+pub fn interventions(ctx: &Ctx, prop: &'static str, sealed: bool, acts: &[Act]) -> Acc {
+    let thorough = ctx.tier == Tier::Thorough;
     let mut ijobs: Vec<(bool, Option<u8>, Intervention, Pat)> = Vec::new();
     let bases: Vec<Option<u8>> = if thorough { (0..n_cfgs() as u8).map(Some).chain([None]).collect() } else { vec![None, Some(1), Some(3), Some(4), Some(5 + 9 * 4 * 2 + 4 * 3 + 2), Some(5 + 9 * 4 * 3 + 4 * 6)] };
     for tcp in [false, true] {
@@ -166,23 +194,51 @@ pub fn sweep(ctx: &Ctx) -> Acc {
             let k = if tcp { 1 } else { n as usize + 1 };
             for at in 0..=k {
                 for pat in [Pat::Exact, Pat::LateHalf] {
-                    for newc in 0..N_NAMED_CFGS as u8 {
-                        ijobs.push((tcp, *b, Intervention { at, act: Act::Configure { id: 0, cfg: newc } }, pat));
+                    for a in acts {
+                        ijobs.push((tcp, *b, Intervention { at, act: *a }, pat));
                     }
-                    ijobs.push((tcp, *b, Intervention { at, act: Act::CancelRtx { id: 0 } }, pat));
-                    ijobs.push((tcp, *b, Intervention { at, act: Act::Cancel { id: 0 } }, pat));
                 }
             }
         }
     }
-    let acc2 = ijobs
+    ijobs
         .par_iter()
         .fold(Acc::default, |mut acc, (tcp, c, iv, pat)| {
-            run_path(*tcp, *c, &vec![*pat; 12], Some(*iv), &mut acc);
+            run_path(prop, sealed, *tcp, *c, &vec![*pat; 12], Some(*iv), &mut acc);
             acc
         })
-        .reduce(Acc::default, |a, b| a.merge(b));
-    acc1.merge(acc2)
+        .reduce(Acc::default, |a, b| a.merge(b))
+}
+
+/// C05: at every position of every schedule of the family, a plain response (delivered: the
+/// transaction ends there), a duplicate send (refused, nothing changes), an incoming request
+/// carrying the same id, an indication sent meanwhile, cancel and cancel_retransmissions.
+pub fn completion_sweep(ctx: &Ctx) -> Acc {
+    let acts = [
+        Act::Resp { id: 0, class: 2, auth: Auth::None, from: 0 },
+        Act::Resp { id: 0, class: 3, auth: Auth::None, from: 2 },
+        Act::Resp { id: 3, class: 2, auth: Auth::None, from: 0 },
+        Act::Send { id: 0, dest: 1, seal: Seal::None, shape: 0 },
+        Act::Incoming { class: 0, id: 0, from: 2 },
+        Act::Incoming { class: 1, id: 0, from: 0 },
+        Act::SendOther { kind: 1, dest: 1 },
+        Act::Cancel { id: 0 },
+        Act::CancelRtx { id: 0 },
+    ];
+    interventions(ctx, "C05", false, &acts)
+}
+
+/// C07: an authenticated request with remote credentials R1; at every position of every schedule
+/// of the family a forged (other key, unsigned, corrupted, local key) response is dropped and the
+/// schedule afterwards is the one without it; a genuine response is delivered.
+pub fn forgery_sweep(ctx: &Ctx) -> Acc {
+    let mut acts = Vec::new();
+    for auth in [Auth::Sha1(2), Auth::None, Auth::Sha1Flipped(1), Auth::Sha1(0), Auth::Sha256(2), Auth::Sha1(1), Auth::Sha256(1), Auth::Both(1)] {
+        acts.push(Act::Resp { id: 0, class: 2, auth, from: 0 });
+    }
+    acts.push(Act::Resp { id: 0, class: 3, auth: Auth::None, from: 2 });
+    acts.push(Act::Resp { id: 0, class: 3, auth: Auth::Sha1(1), from: 2 });
+    interventions(ctx, "C07", true, &acts)
 }
 
 pub fn replay(prop: &str, rp: &Value) -> Vec<Violation> {
